@@ -32,7 +32,7 @@ def sheet : P (List Item)
   | _ => none
 
 def render (pq : PhQuirks) (compressed : Bool) (its : List Item) : String :=
-  if Item.panicsList Ctx.root nestSpec its then "panic"
+  if Item.panicsList Ctx.root nestSpec its then "err"
   else Proto.hexOfString (String.ofList (renderBlocksQ pq compressed (sheetBlocks nestSpec its)))
 
 def handle (quirks : List String) (op : String) (args : List String) : String :=
